@@ -12,40 +12,40 @@ import (
 // ScheduleSpec describes one random history. Everything is derived from the
 // case's PRNG; amounts are step counts, never durations.
 type ScheduleSpec struct {
-	Steps       int
-	Shape       string  // uniform | lag | silent | partition | split
-	SubmitProb  float64 // probability of a submission before a step
-	BurstProb   float64 // probability that a submission is a burst of 5-30
-	TruncProb   float64 // probability a gossip uses a tiny sync limit
-	DropProb    float64 // probability of each kind of dropped half-exchange
-	StaleProb   float64
-	PullOnly    float64 // probability that a step is a bare pull
-	TxKinds     int
+	Steps      int
+	Shape      string  // uniform | lag | silent | partition | split
+	SubmitProb float64 // probability of a submission before a step
+	BurstProb  float64 // probability that a submission is a burst of 5-30
+	TruncProb  float64 // probability a gossip uses a tiny sync limit
+	DropProb   float64 // probability of each kind of dropped half-exchange
+	StaleProb  float64
+	PullOnly   float64 // probability that a step is a bare pull
+	TxKinds    int
 	// membership script
-	Joins        int  // number of join requests spread over the run
-	Leaves       int  // number of leave requests
-	Refused      int  // number of joins the application refuses
-	Simultaneous bool // issue two membership requests in the same step
-	Rejoin       bool // a node that left joins again
+	Joins           int  // number of join requests spread over the run
+	Leaves          int  // number of leave requests
+	Refused         int  // number of joins the application refuses
+	Simultaneous    bool // issue two membership requests in the same step
+	Rejoin          bool // a node that left joins again
 	FastSyncJoiners bool
-	CallbackTxProb float64 // application submits follow-up txs from inside the commit callback
-	KeepSilent bool // the silent minority stays silent (dead) during the fair suffix
-	DupProb    float64 // probability that a submission repeats the bytes of an earlier one
-	EmptyProb  float64 // probability that a submission is the empty transaction
-	FFResets   int     // number of times a validator loses its data and fast-syncs back
-	FFSingleServer bool // only one (random) peer answers fast-forward requests
-	PuppetProb float64 // probability that a step is a puppet (Byzantine-content validator) exchange
-	CloseLeaves bool   // the second leave request follows the first within a few steps
-	ResetInWindow bool // with CloseLeaves: the fast-forward resets follow the second leave closely, a join comes later
+	CallbackTxProb  float64 // application submits follow-up txs from inside the commit callback
+	KeepSilent      bool    // the silent minority stays silent (dead) during the fair suffix
+	DupProb         float64 // probability that a submission repeats the bytes of an earlier one
+	EmptyProb       float64 // probability that a submission is the empty transaction
+	FFResets        int     // number of times a validator loses its data and fast-syncs back
+	FFSingleServer  bool    // only one (random) peer answers fast-forward requests
+	PuppetProb      float64 // probability that a step is a puppet (Byzantine-content validator) exchange
+	CloseLeaves     bool    // the second leave request follows the first within a few steps
+	ResetInWindow   bool    // with CloseLeaves: the fast-forward resets follow the second leave closely, a join comes later
 }
 
 type shapeState struct {
-	lagger    *SimNode
-	lagUntil  int
-	silentSet map[int]bool
+	lagger                  *SimNode
+	lagUntil                int
+	silentSet               map[int]bool
 	silentFrom, silentUntil int
-	partFrom, partUntil int
-	hidden *SimNode // "split" shape: one creator hidden from half the nodes
+	partFrom, partUntil     int
+	hidden                  *SimNode // "split" shape: one creator hidden from half the nodes
 }
 
 func (nw *Network) babblers() []*SimNode {
